@@ -144,6 +144,12 @@ func (f *frame) safety(i ssa.Instruction, kind string, st *State, prop string) {
 	if tags == nil {
 		return
 	}
+	if f.recoveredAt(i) && !chanKinds[kind] {
+		// a panic here is caught by a deferred recover() of this function or of a caller on the (inlined) stack: the
+		// function still returns normally, which is all a no-panic clause asks for
+		f.e.note("panics recovered by a deferred recover() in " + relName(f.root.fn) + " are not obligations")
+		return
+	}
 	a, pos := f.anchor(i)
 	f.e.addOb(kind, a, tags, pos, st.cond, prop)
 }
@@ -1604,4 +1610,63 @@ func (f *frame) invTags(tags []string) []string {
 		}
 	}
 	return nil
+}
+
+// recoverDeferOf returns the Defer instruction of fn whose closure calls recover(), if any.
+func recoverDeferOf(fn *ssa.Function) *ssa.Defer {
+	for _, b := range fn.Blocks {
+		for _, ins := range b.Instrs {
+			d, ok := ins.(*ssa.Defer)
+			if !ok {
+				continue
+			}
+			var cl *ssa.Function
+			switch v := d.Call.Value.(type) {
+			case *ssa.MakeClosure:
+				cl, _ = v.Fn.(*ssa.Function)
+			case *ssa.Function:
+				cl = v
+			}
+			if cl == nil {
+				continue
+			}
+			for _, cb := range cl.Blocks {
+				for _, ci := range cb.Instrs {
+					if c, ok := ci.(*ssa.Call); ok {
+						if bi, ok := c.Call.Value.(*ssa.Builtin); ok && bi.Name() == "recover" {
+							return d
+						}
+					}
+				}
+			}
+		}
+	}
+	return nil
+}
+
+// recoveredAt: would a panic raised at instruction i be caught by a deferred recover()? Yes if the function that
+// contains i registered such a defer on every path to i, or if a caller on the inlined stack has executed one.
+func (f *frame) recoveredAt(i ssa.Instruction) bool {
+	if i != nil && i.Parent() == f.fn && i.Block() != nil {
+		if d := recoverDeferOf(f.fn); d != nil {
+			if d.Block() == i.Block() {
+				for _, ins := range d.Block().Instrs {
+					if ins == ssa.Instruction(d) {
+						return true
+					}
+					if ins == i {
+						break
+					}
+				}
+			} else if d.Block().Dominates(i.Block()) {
+				return true
+			}
+		}
+	}
+	for _, g := range f.stack {
+		if f.e.recoverSeen[g] {
+			return true
+		}
+	}
+	return false
 }
